@@ -76,6 +76,7 @@ class Gen:
 
         self.tape, self.np, self.dask, self.da, self.db = tape, np, dask, da, db
         self.ncoll = 0
+        self.iters = {}
         self.desc = []
         self.base_arr = None
 
@@ -141,8 +142,8 @@ class Gen:
             self.desc.append(["struct", 7, 1])
             self.desc.append(["delayed", a, b])
             return {d, 5}, {a * 2 + b, 5}
-        if kind in (4, 5) and n < 2:
-            n = 2                        # two distinct field values (an iterator is single-use)
+        if kind in (4, 5):
+            n = 2                        # exactly the two field values (an iterator is single-use)
         items = [self.node(depth + 1) for _ in range(n)]
         xs, es = [i[0] for i in items], [i[1] for i in items]
         self.desc.append(["struct", kind, n])
@@ -159,7 +160,25 @@ class Gen:
             return Box(xs[0], xs[-1]), Box(es[0], es[-1])
         if kind == 5:
             return Pair(xs[0], xs[-1]), Pair(es[0], es[-1])
-        return iter(xs), es          # kind 6: iterators are consumed and returned as lists
+        it = iter(xs)                # kind 6: iterators are consumed and returned as lists
+        self.iters[id(it)] = xs
+        return it, es
+
+    def count(self, obj):
+        """Collections actually present in a generated structure (does not consume iterators)."""
+        if self.dask.is_dask_collection(obj):
+            return 1
+        if id(obj) in self.iters:
+            return sum(self.count(o) for o in self.iters[id(obj)])
+        if isinstance(obj, dict):
+            return sum(self.count(k) + self.count(v) for k, v in obj.items())
+        if isinstance(obj, MyList):
+            return 0
+        if isinstance(obj, (list, tuple, set)):
+            return sum(self.count(o) for o in obj)
+        if dataclasses.is_dataclass(obj) and not isinstance(obj, type):
+            return sum(self.count(getattr(obj, f.name)) for f in dataclasses.fields(obj))
+        return 0
 
 
 def same(np, a, b):
@@ -209,6 +228,7 @@ def run_one(tape, cfg):
         op = "compute"   # persist/optimize would consume an iterator before the follow-up compute
     wl = {"desc": g.desc, "nargs": nargs, "op": op, "traverse": traverse, "optimize_graph": optimize_graph}
     out.decoded = wl
+    g.ncoll = sum(g.count(a) for a in args)      # what is really inside the arguments
     if g.ncoll == 0:
         out.status = "discard"           # nothing to compute: dask returns the arguments untouched
         return out
